@@ -492,6 +492,60 @@ def bounded_progress_run(res, base, r, idx):
             res.count('runs_over_budget_inconclusive')
 
 
+def scaling_input(r):
+    """A deep or wide term of one repeated shape: a cost per call that is
+    exponential (or of high degree) in the depth shows here and on no small
+    input.  Half of them rest on a symbol that is not declared, so that
+    nothing about the term can be inferred."""
+    d = r.randint(8, 40)
+    shape = r.choice(['left', 'right', 'let', 'not', 'ite', 'extend', 'wide',
+                      'apply', 'concat', 'strcat'])
+    declared = r.random() < 0.5
+    sort = {'not': 'Bool', 'ite': 'Bool', 'extend': '(_ BitVec 4)',
+            'concat': '(_ BitVec 2)', 'strcat': 'String'}.get(shape, 'Int')
+    decls = [f'(declare-const u {sort})'] if declared else []
+    t = 'u'
+    if shape in ('left', 'right'):
+        op = r.choice(['+', '-', '*'])
+        for _ in range(d):
+            t = f'({op} {t} 1)' if shape == 'left' else f'({op} 1 {t})'
+        t = f'(> {t} 0)'
+    elif shape == 'let':
+        body = f'v{d - 1}'
+        t = f'(> {body} 0)'
+        for i in reversed(range(d)):
+            prev = 'u' if i == 0 else f'v{i - 1}'
+            t = f'(let ((v{i} (+ {prev} 1))) {t})'
+    elif shape == 'not':
+        for _ in range(d):
+            t = f'(not {t})'
+    elif shape == 'ite':
+        for _ in range(d):
+            t = f'(ite u {t} u)'
+    elif shape == 'extend':
+        for _ in range(d):
+            t = f'((_ {r.choice(["zero_extend", "sign_extend"])} 1) {t})'
+        t = f'(= {t} {t})' if d < 12 else f'(bvult {t} {t})'
+    elif shape == 'wide':
+        t = '(and ' + ' '.join(['(> u 0)'] * (2 * d)) + ')'
+    elif shape == 'apply':
+        decls.append('(declare-fun f (Int) Int)' if declared else '')
+        for _ in range(d):
+            t = f'(f {t})'
+        t = f'(> {t} 0)'
+    elif shape == 'concat':
+        for _ in range(d):
+            t = f'(concat {t} u)' if r.random() < 0.5 else f'(concat u {t})'
+        t = f'(= {t} {t})' if d < 10 else f'(bvult {t} #b0)'
+    elif shape == 'strcat':
+        for _ in range(d):
+            t = f'(str.++ {t} "a")'
+        t = f'(= {t} "")'
+    text = '\n'.join([x for x in decls if x] + [f'(assert {t})',
+                                                '(check-sat)']) + '\n'
+    return text, f'{shape}:{"declared" if declared else "undeclared"}', d
+
+
 def shard(args):
     from vlib import dd
     ns = dd.load()
@@ -553,6 +607,17 @@ def shard(args):
             cands += [(c, f'walk{args["shard"]}:{wi}')
                       for c in random_walk(ex, ns, res, r, text)]
             res.add_distinct(common.digest(text))
+        # per-call cost on deep / wide inputs (every mutator at every node)
+        for k in range(args.get('scaling', 2)):
+            text, shape, d = scaling_input(r)
+            exprs = list(ns.nodeio.parse_smtlib(text))
+            res.count('scaling_inputs')
+            res.cmax('max_scaling_depth', d)
+            res.add_set('scaling_shapes', shape)
+            before = res.counters.get('budgeted_calls', 0)
+            ex.successors(exprs, cap_per_node=2)
+            res.count('scaling_budgeted_calls',
+                      res.counters.get('budgeted_calls', 0) - before)
         # confirmation of candidates on the real tool (dedupe by mechanism)
         done = set()
         prio = {'pump': 0, 'noop': 1}
@@ -582,7 +647,8 @@ def run(ctx):
     q = ctx.tier == 'quick'
     shards = [{'shard': i, 'tiny': 2 if q else 60, 'walks': 2 if q else 80,
                'confirm': 3 if q else 12, 'w3': 2 if q else 20,
-               'ss_depth': 3 if q else 4, 'ss_cap': 25 if q else 300}
+               'ss_depth': 3 if q else 4, 'ss_cap': 25 if q else 300,
+               'scaling': 2 if q else 40}
               for i in range(common.NCPU)]
     results = common.run_shards('checks.c03', shards, timeout=3500)
     common.merge_shards(ctx, results)
@@ -597,7 +663,10 @@ def run(ctx):
         'gen_smt scripts: biased random walks of <= 40 steps with revisit '
         'detection; every call of filter/mutations/global_mutations/'
         'apply_simp runs under a step budget (1+p)(10^4+200n+5n^2) and a '
-        'node-allocation budget (1+p)(100+20n) for p proposals on n nodes; '
+        'node-allocation budget (1+p)(100+20n) for p proposals on n nodes, '
+        'also on deep/wide single-shape terms (depth 8-40; nested '
+        'arithmetic, let, not, ite, extensions, concat, applications; with '
+        'and without a declaration of the innermost symbol); '
         'every cycle/no-op candidate is replayed on the real tool against a '
         'set: predicate; real runs with permissive predicates are held to '
         '50n+200 accepted steps; evaluations = proposals applied + real '
